@@ -1215,6 +1215,9 @@ func (tr *trans) sortSlice(c *ssa.CallCommon, st State) bool {
 	tr.vc.assume(fmt.Sprintf("(forall ((j Int)) (! (=> %s (= (select %s (%s j)) (select %s j))) :pattern ((select %s j))))", in("j"), nb, inv, old, old))
 	tr.vc.assume(fmt.Sprintf("(forall ((j Int)) (! (=> %s (= (%s (%s j)) j)) :pattern ((%s j))))", in("j"), inv, perm, perm))
 	tr.setState(st, h, store(A, "(sarr "+s+")", nb), "(sarr "+s+")")
+	if tr.sortedByClosure(c, s, st) {
+		return true
+	}
 	tr.note("sort.Slice permutes the slice (the resulting order is not modelled)")
 	return true
 }
@@ -1491,4 +1494,76 @@ func (tr *trans) returnedClosure(inner *ssa.Call) (*ssa.Function, map[string]SV,
 		}
 	}
 	return g, binds, true
+}
+
+// sortedByClosure: when the comparator passed to sort.Slice is a closure under contract with a clause
+// `ensures result == E` (E over i, j and the captured variables), the sorted slice satisfies, in the state after
+// the sort: for all positions a < b, not E[i:=b, j:=a] (what sort.Slice guarantees for a comparator that is a
+// strict weak order; that the comparator is one is not checked). The closure body is verified against its
+// contract like any function.
+func (tr *trans) sortedByClosure(c *ssa.CallCommon, s Term, st State) bool {
+	mc, ok := c.Args[1].(*ssa.MakeClosure)
+	if !ok {
+		return false
+	}
+	g, ok := mc.Fn.(*ssa.Function)
+	if !ok || len(g.Params) != 2 {
+		return false
+	}
+	fc := tr.prog.CS.Funcs[funcKey(g)]
+	if fc == nil {
+		return false
+	}
+	var body Expr
+	for _, it := range fc.Items {
+		if it.Kind != "ensures" {
+			continue
+		}
+		if b, ok := it.E.(*EBinary); ok && b.Op == "==" {
+			if id, ok := b.X.(*EIdent); ok && id.Name == "result" {
+				body = b.Y
+			}
+		}
+	}
+	if body == nil {
+		return false
+	}
+	env := &Env{tr: tr, vc: tr.vc, pkgPath: fc.PkgPath, st: st, old: st, vars: map[string]SV{}, lets: map[string]Expr{}, errs: &tr.errs, with: fc.With}
+	// captured variables: current content of their cells
+	for k, bv := range mc.Bindings {
+		if k >= len(g.FreeVars) {
+			break
+		}
+		name := g.FreeVars[k].Name()
+		if pt, ok := bv.Type().Underlying().(*types.Pointer); ok {
+			if _, done := tr.vals[bv]; !done {
+				return false
+			}
+			l := tr.locOf(bv)
+			env.vars[name] = env.goSV(tr.load(st, l), pt.Elem())
+		}
+	}
+	for _, it := range fc.Items {
+		if it.Kind == "let" {
+			env.lets[it.Name] = it.E
+		}
+	}
+	a, b := tr.vc.fresh("srt.a"), tr.vc.fresh("srt.b")
+	off := "(soff " + s + ")"
+	ia := "(- " + a + " " + off + ")"
+	ib := "(- " + b + " " + off + ")"
+	// E[i:=b, j:=a]
+	env.vars[g.Params[0].Name()] = env.intSV(ib)
+	env.vars[g.Params[1].Name()] = env.intSV(ia)
+	env.absIdx = map[string]Term{s + "|" + ia: a, s + "|" + ib: b}
+	before := len(tr.errs)
+	e := env.elabBool(body)
+	if len(tr.errs) > before {
+		return false
+	}
+	A := tr.getState(st, tr.arrHeap(c.Args[0].(*ssa.MakeInterface).X.Type().Underlying().(*types.Slice).Elem()))
+	arr := "(select " + A + " (sarr " + s + "))"
+	tr.vc.assume(fmt.Sprintf("(forall ((%s Int) (%s Int)) (! (=> (and (<= %s %s) (< %s %s) (< %s (+ %s (sllen %s)))) (not %s)) :pattern ((select %s %s) (select %s %s))))", a, b, off, a, a, b, b, off, s, e, arr, a, arr, b))
+	tr.note("sort.Slice with comparator " + funcKey(g) + ": the result is ordered by the comparator's contract (that the comparator is a strict weak order is assumed)")
+	return true
 }
